@@ -35,6 +35,8 @@ type ftype struct {
 	anchorsV    bool
 	canOptional bool
 	isKey       bool
+	fixedMarker bool   // marker below is used instead of a random one
+	marker      string // "", "! " or "? "
 }
 
 const (
@@ -300,6 +302,7 @@ func (c *fctx) typeOf(t int, depth int, item bool) (ftype, bool) {
 				ft.attrs = append(ft.attrs, pfx+"rules.notIn = ["+strings.Join(q, ", ")+"]")
 				g.feat("enum_rules_not_in")
 			}
+			c.fg.enumRuleFeat(ti)
 			if item {
 				// already prefixed
 				ft.itemPrefix = ""
@@ -538,9 +541,58 @@ func (c *fctx) keyType(item bool, entityKey bool) ftype {
 	return ft
 }
 
+// bareEntityRef returns an entity name WITHOUT a package (`foreign = parent`).
+// Nothing resolves foreign references at compile time, so the entity may live
+// in a package the referring package does not import: that is preferred, and
+// the package is then kept un-imported (pkgInfo.avoid).
+func (c *fctx) bareEntityRef() string {
+	g := c.g
+	r := c.r()
+	p := c.fg.pkg
+	type cand struct {
+		pkg *pkgInfo
+		ent string
+	}
+	var far, near []cand
+	for _, q := range g.pkgs {
+		for _, e := range q.ents {
+			if q != p && !p.imported[q] {
+				far = append(far, cand{q, e})
+			} else {
+				near = append(near, cand{q, e})
+			}
+		}
+	}
+	g.xfeat(XBareForeign)
+	g.feat("foreign_ref_bare")
+	switch {
+	case len(far) > 0 && r.chance(75):
+		x := far[r.intn(len(far))]
+		if !p.avoid[x.pkg] {
+			p.avoid[x.pkg] = true
+			g.barePairs = append(g.barePairs, [2]*pkgInfo{p, x.pkg})
+		}
+		g.feat("foreign_ref_bare_to_unimported_pkg")
+		return x.ent
+	case len(near) > 0 && r.chance(80):
+		x := near[r.intn(len(near))]
+		if x.pkg == p {
+			g.feat("foreign_ref_bare_same_pkg")
+		} else {
+			g.feat("foreign_ref_bare_imported_pkg")
+		}
+		return x.ent
+	}
+	g.feat("foreign_ref_bare_unknown_entity")
+	return strings.ToLower(r.pick(typeWordsA))
+}
+
 // entityRef returns "pkg.v1.entity_name" of a known or fictional entity.
 func (c *fctx) entityRef() string {
 	r := c.r()
+	if c.g.on(XBareForeign) && r.chance(55) {
+		return c.bareEntityRef()
+	}
 	var cands []string
 	for _, p := range c.g.pkgs {
 		for _, e := range p.ents {
@@ -579,7 +631,15 @@ func (c *fctx) renderProperty(kw, name string, ft ftype, markers bool) []string 
 	var extra []string
 	isRepeated := strings.HasPrefix(ft.typ, "array:") || strings.HasPrefix(ft.typ, "map:")
 	isMap := strings.HasPrefix(ft.typ, "map:")
-	if markers {
+	if ft.fixedMarker {
+		marker = ft.marker
+		switch marker {
+		case "! ":
+			g.feat("field_required")
+		case "? ":
+			g.feat("field_optional")
+		}
+	} else if markers {
 		x := r.intn(100)
 		if isMap && x < 30 {
 			x = 99 // L17: required map field panics
@@ -621,10 +681,14 @@ func (c *fctx) renderProperty(kw, name string, ft ftype, markers bool) []string 
 	var body []string
 	descMode := r.intn(100)
 	if descMode < 22 {
-		body = append(body, "| "+g.desc())
-		if r.chance(30) {
+		if g.on(XDescExotic) && r.chance(50) {
+			body = append(body, barLines(g.exoticDescBlock())...)
+		} else {
 			body = append(body, "| "+g.desc())
-			g.feat("desc_multiline")
+			if r.chance(30) {
+				body = append(body, "| "+g.desc())
+				g.feat("desc_multiline")
+			}
 		}
 		g.feat("field_desc_block")
 	}
@@ -642,11 +706,11 @@ func (c *fctx) renderProperty(kw, name string, ft ftype, markers bool) []string 
 			return []string{head + " | " + g.desc()}
 		}
 		if r.chance(10) {
-			return []string{head + " {", "}"}
+			return []string{head + " {" + g.trailingComment(), "}"}
 		}
-		return []string{head}
+		return []string{head + g.trailingComment()}
 	}
-	out := []string{head + " {"}
+	out := []string{head + " {" + g.trailingComment()}
 	for _, l := range body {
 		if l == "" {
 			out = append(out, "")
@@ -700,7 +764,13 @@ func (g *gen) enumOptionsKW(kw string, n int, names *[]string, infoKeySet []stri
 				out = append(out, "  | "+g.desc())
 				g.feat("enum_option_desc")
 			} else if r.chance(15) {
-				out = append(out, fmt.Sprintf("  description = %q", g.plainDesc()))
+				if g.on(XDescExotic) && r.chance(50) {
+					// a string running over several lines (backslash-newline)
+					out = append(out, "  description = "+bclQuote(strings.Join(g.exoticDescBlock(), "\n")))
+					g.feat("desc_multiline_string_attr")
+				} else {
+					out = append(out, fmt.Sprintf("  description = %q", g.plainDesc()))
+				}
 				g.feat("enum_option_desc_attr")
 			}
 			for _, k := range keys {
@@ -720,6 +790,9 @@ func (g *gen) enumOptionsKW(kw string, n int, names *[]string, infoKeySet []stri
 // plainDesc is a description safe inside a quoted string.
 func (g *gen) plainDesc() string {
 	s := g.desc()
+	if rs := []rune(s); len(rs) > 200 {
+		s = string(rs[:200]) // whole runes: the text is not ASCII under XDescExotic
+	}
 	s = strings.ReplaceAll(s, "`", "")
 	s = strings.ReplaceAll(s, "*", "")
 	return s
